@@ -262,6 +262,27 @@ fn checkpoint(cx: &Ctx, case: &str, path: &Path, uni: &Uni, fin: bool, ck: usize
         };
         cx.trace.ev(json!({"ev":"Read","case":case,"n":a,"res":res,"len":len,"tok":t,"fin":fin,"ck":ck}));
     }
+    // D-level: where the archive carries (attributes), the CRC32 recorded for each readable universe file
+    // equals the CRC32 of its content (attributes maintenance of MutableArchive)
+    if matches!(arch.find_file("(attributes)"), Ok(Some(_))) {
+        let loaded = matches!(guarded(|| arch.load_attributes()), Outcome::Done(Ok(())));
+        let mut bad: Vec<String> = vec![];
+        let mut checked = 0;
+        if loaded {
+            for (a, c) in uni.abs.iter().zip(uni.conc.iter()) {
+                if let Outcome::Done(Ok(d)) = guarded(|| arch.read_file(c)) {
+                    if let Ok(Some(fi)) = arch.find_file(c) {
+                        checked += 1;
+                        let rec = arch.get_file_attributes(fi.block_index).and_then(|x| x.crc32);
+                        if rec != Some(crc32fast::hash(&d)) {
+                            bad.push(a.clone());
+                        }
+                    }
+                }
+            }
+        }
+        cx.trace.ev(json!({"ev":"Attrs","case":case,"ck":ck,"loaded":loaded,"checked":checked,"bad":bad}));
+    }
     let r = guarded(|| arch.list());
     let (res, names) = match r {
         Outcome::Done(Ok(l)) => {
@@ -277,6 +298,9 @@ fn checkpoint(cx: &Ctx, case: &str, path: &Path, uni: &Uni, fin: bool, ck: usize
 
 /// MutableArchive::read_file of the subject of the call just made, inside the session.
 fn session_read(cx: &Ctx, case: &str, ma: &mut MutableArchive, n: &str, cn: &str, oi: usize) {
+    if !SREAD.with(|s| s.get()) {
+        return;
+    }
     cx.op_with(
         json!({"ev":"SRead","case":case,"oi":oi,"n":n,"tok":"none"}),
         || match ma.read_file(cn) {
@@ -287,8 +311,14 @@ fn session_read(cx: &Ctx, case: &str, ma: &mut MutableArchive, n: &str, cn: &str
     );
 }
 
+thread_local! {
+    /// whether the current history observes MutableArchive::read_file after each call (case attribute `sread`)
+    static SREAD: std::cell::Cell<bool> = const { std::cell::Cell::new(true) };
+}
+
 fn run_history(cx: &Ctx, c: &Value, dir: &Path, seed: u64) {
     let case = gs(c, "id").to_string();
+    SREAD.with(|s| s.set(c.get("sread").and_then(|x| x.as_bool()).unwrap_or(true)));
     // universe and concrete names
     let lf = gb(c, "lf");
     let at = gb(c, "at");
